@@ -4,6 +4,7 @@ import (
 	"encoding/json"
 	"flag"
 	"fmt"
+	"go/types"
 	"os"
 	"path/filepath"
 	"sort"
@@ -74,6 +75,13 @@ func main() {
 			return o
 		}()}, "", " ")
 		fmt.Println(string(b))
+		return
+	}
+	if os.Getenv("ALLIANCECHECK_DEBUG_INLINE") != "" {
+		fmt.Fprintf(os.Stderr, "inlined: %v\nnotes: %v\ndead: %v\n", e.Inlined, e.InlineNotes, e.DeadHelpers)
+	}
+	if *dump == "params" {
+		dumpParams(e)
 		return
 	}
 	if *dump == "atoms" {
@@ -224,3 +232,61 @@ func dumpAtoms(e *Engine) {
 		}
 	}
 }
+
+// dumpParams prints the baseline parameter-name table (Go source) for the reviewed tree: analyzer/baseline_params.go.
+func dumpParams(e *Engine) {
+	fmt.Println("package main")
+	fmt.Println()
+	fmt.Println("// Code generated by `alliancecheck -dump params` on the reviewed tree; DO NOT EDIT by hand.")
+	fmt.Println("// Parameter names of the reviewed tree, by function and position (receiver first), with their types.")
+	fmt.Println("// A parameter term prints the reviewed name of its position while the types still agree, so renaming")
+	fmt.Println("// parameters does not change what the rules see; adding, removing or retyping a parameter falls back to")
+	fmt.Println("// the current names.")
+	fmt.Println("var baselineParams = map[string][][2]string{")
+	var keys []string
+	byKey := map[string]*ssa.Function{}
+	for _, fn := range e.SMFuncs() {
+		if fn.Parent() != nil || len(fn.Params) == 0 {
+			continue
+		}
+		k := FuncKey(fn)
+		keys = append(keys, k)
+		byKey[k] = fn
+	}
+	sort.Strings(keys)
+	for _, k := range keys {
+		fn := byKey[k]
+		var parts []string
+		for _, p := range fn.Params {
+			parts = append(parts, fmt.Sprintf("{%q, %q}", p.Name(), typeKey(p.Type())+ptrMark(p.Type())))
+		}
+		fmt.Printf("\t%q: {%s},\n", k, strings.Join(parts, ", "))
+	}
+	fmt.Println("}")
+	fmt.Println()
+	fmt.Println("// every top-level function of the state-machine packages in the reviewed tree")
+	fmt.Println("var baselineFuncs = map[string]bool{")
+	var all []string
+	for _, fn := range e.SMFuncs() {
+		if fn.Parent() == nil {
+			all = append(all, FuncKey(fn))
+		}
+	}
+	sort.Strings(all)
+	prev := ""
+	for _, k := range all {
+		if k != prev {
+			fmt.Printf("\t%q: true,\n", k)
+		}
+		prev = k
+	}
+	fmt.Println("}")
+}
+
+func ptrMark(t types.Type) string {
+	if _, ok := t.(*types.Pointer); ok {
+		return "*"
+	}
+	return ""
+}
+
